@@ -552,6 +552,11 @@ func reqDeadline() []reqCfg {
 	out = append(out,
 		reqCfg{Opts: []reqCtxOpt{{Retry: time.Second, BestEffort: true}}, Steps: []string{"send c0", "send c0", "conngated", "send c0", "send c0", "adv 1s", "release p1", "recv c0", "reply p1 cur c0"}},
 		reqCfg{Opts: []reqCtxOpt{{Retry: time.Second, FailNoPeers: true}, {Retry: time.Second}}, Steps: []string{"send c0", "recv c0", "conn", "send c0", "recv c0", "send c1", "recv c1", "drop p1", "send c0", "conn", "send c0", "recv c0", "drop p2"}},
+		// contexts that get fail-no-peers, best effort and the deadlines by inheritance from the socket
+		reqCfg{Inherit: true, Opts: []reqCtxOpt{{Retry: time.Second, FailNoPeers: true, RecvExp: 2 * time.Second}, {Retry: time.Second, FailNoPeers: true, RecvExp: 2 * time.Second}},
+			Steps: []string{"send c1", "recv c1", "conn", "send c1", "recv c1", "drop p1", "send c1", "conn", "send c1", "recv c1", "adv 1.999999s", "adv 1us", "recv c1"}},
+		reqCfg{Inherit: true, Opts: []reqCtxOpt{{Retry: time.Second, BestEffort: true, SendExp: 3 * time.Second}, {Retry: time.Second, BestEffort: true, SendExp: 3 * time.Second}},
+			Steps: []string{"send c1", "send c1", "conngated", "send c1", "send c1", "adv 1s", "release p1", "recv c1", "reply p1 cur c1"}},
 	)
 	return out
 }
